@@ -10,7 +10,7 @@ import (
 	"verif/checker/ssax"
 )
 
-func init() { Registry["C07"] = Spec{Run: runC07} }
+func init() { Registry["C07"] = Spec{Run: runC07, Packages: []string{"lockedfile"}} }
 
 // onFile: the *os.File receiver value derives from the locked *File f.
 func onFile(f ssa.Value) func(ssa.Value) bool {
